@@ -91,6 +91,18 @@ def gen_case(seed, tier='quick', max_geos=None, degenerate=False):
     case['rows'][g] = row
     case['zero_sum_geo'] = g
     par.setdefault('volume_ratio_tolerance', r2.choice([0.5, 1.0, 4.0]))
+  r3 = random.Random(seed * 104729 + 31)
+  if not degenerate and n >= 3 and r3.random() < 0.15:
+    # volumes drift: some geos carried three times their recent volume in the older half of the history, and the
+    # analysis window is shorter than the history (geo shares are whole-history quantities, the series are not)
+    gs = sorted(r3.sample(range(n), r3.randint(1, n - 1)))
+    half = nd // 2
+    for g in gs:
+      case['rows'][g] = [v * 3 if t < half else v for t, v in enumerate(case['rows'][g])]
+    par['n_pretest_max'] = max(par['n_test'] + 3, r3.choice([nd - half, nd - half - 2, 12]))   # properties assume n_test + 3 points
+    if r3.random() < 0.7:
+      par['volume_ratio_tolerance'] = r3.choice([0.1, 0.2, 0.5, 1.0])
+    case['drift'] = gs
   return case
 
 
@@ -183,7 +195,7 @@ def apply_history(mm, case, name):
   from matched_markets.methodology import tbrmmdesignparameters as P, tbrmatchedmarkets as MM
   kind = case.get('history')
   if not kind:
-    return
+    return None
   def quiet(f):
     try:
       return f()
@@ -195,6 +207,15 @@ def apply_history(mm, case, name):
     quiet(mm.search_results)
   elif kind == 'other-params-first':
     # an earlier search on the same object with a tight budget and another n_designs, parameters restored afterwards
+    if case['seed'] % 2 == 1 and mm.parameters.budget_range is not None and float(mm.parameters.iroas) > 0:
+      # only the assumed iROAS differed during the earlier calls (the budget bound on geos is budget x iroas)
+      saved_iroas = mm.parameters.iroas
+      mm.parameters.iroas = saved_iroas * (8.0 if case['seed'] % 4 == 1 else 0.125)
+      quiet(lambda: mm.geos_within_constraints)
+      quiet(mm.count_max_designs)
+      quiet(mm.exhaustive_search if name == 'exhaustive' else mm.greedy_search)
+      mm.parameters.iroas = saved_iroas
+      return None
     saved = {k: copy.deepcopy(getattr(mm.parameters, k)) for k in ('budget_range', 'n_designs', 'treatment_share_range')}
     imp = sorted(float(v) for v in mm.geo_req_impact.values if v == v)
     if imp and float(mm.parameters.iroas) > 0:
@@ -207,21 +228,36 @@ def apply_history(mm, case, name):
     for k, v in saved.items():
       setattr(mm.parameters, k, v)
   elif kind == 'second-matcher':
-    # another analysis of the same data object, admitting other geos, used in between
+    # another analysis of the same data object, admitting other geos, used in between; returns whether the
+    # other analysis really left another geo index installed on the shared data object
     quiet(mm.count_max_designs)
-    par2 = dict(case['par_final'])
+    mine = list(mm.data.geo_index) if mm.data.geo_index is not None else []
     shares = sorted(float(v) for v in mm.data.geo_share.values)
+    variants = []
     if len(shares) >= 3 and shares[-1] > shares[-2] > 0:
-      par2['treatment_share_range'] = (0.0, (shares[-1] + shares[-2]) / 2)     # drops the largest geo if it may be dropped
-    else:
-      par2['n_geos_max'] = 2
-    par2['n_pretest_max'] = case['par_final'].get('n_pretest_max', 90)          # the same window: data.df is truncated in place
-    def other():
-      p2 = P.TBRMMDesignParameters(**{k: (tuple(v) if isinstance(v, list) else v) for k, v in par2.items()})
-      mm2 = MM.TBRMatchedMarkets(mm.data, p2)
-      mm2.count_max_designs()
-      mm2.geo_assignments
-    quiet(other)
+      variants.append({'treatment_share_range': (1e-9, (shares[-1] + shares[-2]) / 2)})   # drops the largest geo if it may be dropped
+    if len(mine) >= 3:
+      variants.append({'n_geos_max': len(mine) - 1})
+    imp = sorted(float(v) for v in mm.geo_req_impact.values if v == v)
+    if imp and float(mm.parameters.iroas) > 0:
+      hi = imp[len(imp) // 2] / float(mm.parameters.iroas)
+      variants.append({'budget_range': (hi * 1e-3, hi)})
+    variants.append({'n_geos_max': 2})
+    for var in variants:
+      par2 = dict(case['par_final'])
+      par2.update(var)
+      par2['n_pretest_max'] = case['par_final'].get('n_pretest_max', 90)        # the same window: data.df is truncated in place
+      try:
+        p2 = P.TBRMMDesignParameters(**{k: (tuple(v) if isinstance(v, list) else v) for k, v in par2.items()})
+        mm2 = MM.TBRMatchedMarkets(mm.data, p2)
+        quiet(mm2.count_max_designs)
+        mm2.geo_assignments
+      except Exception:
+        continue
+      if list(mm.data.geo_index) != mine:
+        return True
+    return False
+  return None
 
 
 def exc_kind(e):
@@ -342,6 +378,9 @@ def run_case(case, want=('tables', 'components', 'exhaustive', 'greedy')):
     out['shareS'], out['optB'], out['pairs'] = share_tbl, opt_tbl, pairs
   if 'components' in want:
     comp = {}
+    if case.get('history') == 'second-matcher':
+      # the object has been asked for its assignments above; now another analysis uses the same data object
+      out['other_index_installed'] = apply_history(mm, case, 'components')
     try:
       comp['tsize_range'] = [int(v) for v in mm.treatment_group_size_range()]
     except Exception as e:
@@ -405,11 +444,11 @@ def run_search(case, name, geos):
   """One search on a fresh object. Returns {'outcome': 'ok'|'ValueError'|'other:..', 'designs': [...]}."""
   try:
     mm, par = build(case, with_history=True)
-    apply_history(mm, case, name)
+    eff = apply_history(mm, case, name)
     res = mm.exhaustive_search() if name == 'exhaustive' else mm.greedy_search()
     gi = list(mm.data.geo_index) if mm.data.geo_index is not None else []
     return {'outcome': 'ok', 'designs': [design_record(d, geos, gi) for d in res],
-            'geo_index': [geos.index(g) for g in gi]}
+            'geo_index': [geos.index(g) for g in gi], 'other_index_installed': eff}
   except Exception as e:
     import traceback
     return {'outcome': exc_kind(e), 'msg': (str(e) + ' @ ' + traceback.format_exc().strip().split('\n')[-3].strip())[:300]}
@@ -499,9 +538,17 @@ def has_ties(out):
   return False
 
 
+def impact_tie_at_cut(out):
+  """n_geos_max binds and two geos have exactly the same required impact: which of them survives is decided by
+  pandas' unstable sort, which the model does not fix (C12 checks separately that it does not depend on geo names)."""
+  nmax = (out.get('par') or {}).get('n_geos_max')
+  imps = [g['impact'] for g in out.get('grec', []) if g['impact'] == g['impact']]
+  return nmax is not None and nmax < len(out.get('grec', [])) and len(set(imps)) != len(imps)
+
+
 def encode_case(out, compare_searches=True):
   """(scase, sexp) Coq term for one implementation run, or None when the run has nothing to compare."""
-  if out.get('build') != 'ok':
+  if out.get('build') != 'ok' or impact_tie_at_cut(out):
     return None
   par = out['par']
   gs = '[' + '; '.join(grec_term(g) for g in out['grec']) + ']'
@@ -587,6 +634,8 @@ def correspond(ck, outs, tag, components=None, shard_bytes=350000):
     t = encode_case(o)
     if t is not None:
       terms.append((i, t))
+    elif o.get('build') == 'ok' and impact_tie_at_cut(o):
+      ck.cov['model_comparison_skipped_tied_impacts_at_n_geos_max'] = ck.cov.get('model_comparison_skipped_tied_impacts_at_n_geos_max', 0) + 1
   jobs, groups, cur, size = [], [], [], 0
   for i, t in terms:
     if cur and size + len(t) > shard_bytes:
